@@ -168,3 +168,15 @@ Definition wb_ok (c : wbcase) : bool :=
   let '(p, bs, godec) := c in
   bytes_eqb (enc_blockproof p) bs &&
   let d := dec_blockproof bs in wref_eqb (bp_ref d) (bp_ref godec) && Msg.list_eqb wsig_eqb (bp_nodes d) (bp_nodes godec) && bytes_eqb (bp_seed d) (bp_seed godec).
+
+(* ---- ValidateBlockConsensus (VBC.v) ---- *)
+From LH Require Import VBC.
+Definition AP r n se so := {| ap_ref := r; ap_nodes := n; ap_seed_nonempty := se; ap_seed_ok := so |}.
+Definition VC i cm := {| vc_inst := i; vc_committee := cm |}.
+Definition vcase := (vbc_cfg * bool * option block * bool * option aproof * bool * bool * option (list N))%type.
+Definition v_ok (c : vcase) : bool :=
+  let '(cfg, cc, blk, pe, pr, soft, obs, ids) := c in
+  Bool.eqb (vbc cfg cc blk pe pr soft) obs &&
+  (* member ids are compared when the proof bytes are readable as a whole; on unreadable bytes the real function
+     returns whatever its node iterator yields or an error (it must not panic: a harness monitor checks that) *)
+  match pr with Some _ => opt_eqb (Msg.list_eqb N.eqb) (member_ids pe pr) ids | None => true end.
